@@ -222,7 +222,21 @@ class C16Phh(Monitor):
                 self.report('replay', 'hole_cards_differ', f'hole cards played {s.hole_cards}, replayed {final.hole_cards}')
             if [list(x) for x in s.board_cards] != [list(x) for x in final.board_cards]:
                 self.report('replay', 'board_differs', f'board played {s.board_cards}, replayed {final.board_cards}')
-            if chips_plain and (list(s.stacks) != list(final.stacks) or list(s.payoffs) != list(final.payoffs) or final.status):
+            # a voluntary show that replaces a player's cards by others (accepted past a dealability warning) while
+            # the pots are being pushed one by one decides the later pots with the new cards; the replay pushes all
+            # pots before it comes to that line - not something the format can say
+            from collections import Counter as _C
+            dealt_to, pushing, rewrote = {}, False, False
+            for o in s.operations:
+                n_ = type(o).__name__
+                if n_ == 'HoleDealing':
+                    dealt_to.setdefault(o.player_index, _C()).update(c for c in o.cards if c)
+                elif n_ == 'ChipsPushing':
+                    pushing = True
+                elif n_ == 'HoleCardsShowingOrMucking' and pushing and o.hole_cards:
+                    if _C(c for c in o.hole_cards if c) - dealt_to.get(o.player_index, _C()):
+                        rewrote = True
+            if chips_plain and not rewrote and (list(s.stacks) != list(final.stacks) or list(s.payoffs) != list(final.payoffs) or final.status):
                 self.report('replay', 'stacks_differ', f'final stacks played {list(s.stacks)} payoffs {list(s.payoffs)}, replayed '
                             f'{list(final.stacks)} payoffs {list(final.payoffs)} (status {final.status})')
             # a history that cannot be applied must be reported, not silently cut short
